@@ -36,7 +36,7 @@ func c02Templates(maxLen int) [][]byte {
 		out = append(out, d)
 	})
 	bait := "MAIL FROM:<bait@x>\r\n"
-	look := []string{"\n.\n", "\n.\r\n", "\r\n.\n", "\r.\r", "\r\n.\r", "\r\n.\rx", ".\r\n", "x.\r\n", "\r\n..\r\n", "\r\r\n.\r\n", "\n\r.\r\n", "\r\n.\r\r\n"}
+	look := []string{"\r\n..\r\n", "\r\n.\r.\r\n", "\r\n...\r\n", "\n.\n", "\n.\r\n", "\r\n.\n", "\r.\r", "\r\n.\r", "\r\n.\rx", ".\r\n", "x.\r\n", "\r\n..\r\n", "\r\r\n.\r\n", "\n\r.\r\n", "\r\n.\r\r\n"}
 	for _, l := range look {
 		out = append(out, []byte(bait+l+bait))
 		out = append(out, []byte("line one\r\n"+l+"RCPT TO:<bait@x>\r\nQUIT\r\n"))
@@ -58,7 +58,7 @@ func c02Combos() []c02Combo {
 	var cs []c02Combo
 	for _, r := range []string{"all", "some", "none"} {
 		for _, v := range []string{"acc", "rej"} {
-			for _, l := range []string{"none", "below", "at", "above"} {
+			for _, l := range []string{"none", "below", "at", "above", "mid", "mid"} {
 				for _, m := range []string{"smtp", "lmtp", "lmtp-rcpt"} {
 					for _, s := range []string{"whole", "random", "bytewise"} {
 						cs = append(cs, c02Combo{r, v, l, m, s})
@@ -88,6 +88,20 @@ func runC02(t datarep.Table, msg []byte, cb c02Combo, idx int, rng *rand.Rand) (
 		limit = len(full)
 	case "above":
 		limit = len(full) + 5
+	case "mid":
+		// used up somewhere inside the message, preferably exactly at the end
+		// of a line: what follows is still message, whatever it looks like
+		var ends []int
+		for p := 1; p < len(full); p++ {
+			if full[p-1] == '\n' {
+				ends = append(ends, p)
+			}
+		}
+		if len(ends) > 0 && idx%3 != 0 {
+			limit = ends[rng.Intn(len(ends))]
+		} else if len(full) > 1 {
+			limit = 1 + rng.Intn(len(full)-1)
+		}
 	}
 	if limit <= 0 {
 		limit = 0
@@ -306,7 +320,7 @@ func init() {
 		t, runs, _ := loadDataTable()
 		nx := crossCheck(t, runs)
 		// unit level: end-of-data detection and the resume position on every class stream
-		ds := sweepData(t, maxLen, []int{0}, 5000, run.Seed, func(data []byte, segs []int, rb, bud int, msg string) {
+		ds := sweepData(t, maxLen, []int{0, 1, 2, 3, 4}, 5000, run.Seed, func(data []byte, segs []int, rb, bud int, msg string) {
 			run.Report(evid.Div{Prop: dataProp(msg, bud), Key: dataKey(t, data, msg), Msg: fmt.Sprintf("stream %q segments %v read size %d: %s", data, segs, rb, msg),
 				Replay: map[string]interface{}{"engine": "datareader", "data": data, "segs": segs, "rb": rb, "bud": bud}})
 		})
